@@ -14,6 +14,7 @@ Exit 2 = the machinery itself failed (never a verdict).
 import argparse
 import importlib
 import json
+import subprocess
 import os
 import sys
 import time
@@ -127,19 +128,47 @@ def run(plugin, prop, tier, seed, t0):
     violations = 0
     lines = []
     if new_failures:
-        seen = set()
+        groups = {}
         for f in new_failures:
-            key = json.dumps(f['sig'], sort_keys=True, default=str)
-            if key in seen:
-                continue
-            seen.add(key)
-            if len(seen) > 5:
-                break
-            path = common.write_replay(prop, {'property': prop, 'kind': 'failing-input', 'failure': f,
-                                              'replay_cmd': '/venv/bin/python harness/check.py %s --replay <this file>' % prop,
-                                              'broken_obligations': undischarged, 'notes': notes})
+            groups.setdefault(json.dumps(f['sig'], sort_keys=True, default=str), []).append(f)
+        for key, group in list(groups.items())[:5]:
+            # prefer a failing input that fails again in a process of its own (a failure can depend on what this run did before it)
+            chosen, path, confirmed = None, None, False
+            for f in group[:6]:
+                cand = common.write_replay(prop, {'property': prop, 'kind': 'failing-input', 'failure': f,
+                                                  'replay_cmd': '/venv/bin/python harness/check.py %s --replay <this file>' % prop,
+                                                  'broken_obligations': undischarged, 'notes': notes})
+                try:
+                    rc = subprocess.run([sys.executable, os.path.abspath(__file__), prop, '--replay', os.path.join(common.VERIF, cand) if not os.path.isabs(cand) else cand],
+                                        stdout=subprocess.DEVNULL, stderr=subprocess.DEVNULL, timeout=300, cwd=common.VERIF).returncode
+                except Exception:
+                    rc = None
+                if chosen is None:
+                    chosen, path = f, cand
+                if rc == 1:
+                    if cand != path:
+                        try:
+                            os.unlink(os.path.join(common.VERIF, path) if not os.path.isabs(path) else path)
+                        except OSError:
+                            pass
+                    chosen, path, confirmed = f, cand, True
+                    break
+                elif cand != path:
+                    try:
+                        os.unlink(os.path.join(common.VERIF, cand) if not os.path.isabs(cand) else cand)
+                    except OSError:
+                        pass
+            if not confirmed:
+                full = os.path.join(common.VERIF, path) if not os.path.isabs(path) else path
+                try:
+                    obj = json.load(open(full))
+                    obj['reproduced_in_fresh_process'] = False
+                    obj['notes'] = obj.get('notes', []) + ['observed during the run of this check; the replay of this input alone in a fresh process did not fail again (the failure may depend on the runs that preceded it in the same process)']
+                    json.dump(obj, open(full, 'w'), indent=1, default=str)
+                except Exception:
+                    pass
             lines.append('VIOLATION property=%s replay=%s' % (prop, path))
-        violations = len(seen)
+        violations = min(len(groups), 5)
     elif ctx.broken or mismatches:
         path = common.write_replay(prop, {'property': prop, 'kind': 'no-failing-input-found',
                                           'undischarged_theorems': undischarged, 'notes': notes,
